@@ -42,6 +42,14 @@ WORLDS: Dict[str, Dict[str, Any]] = {
         bases={"b1": dict(cell="c3", stalls=1, station="s1"), "b2": dict(cell="c1", stalls=1, station=None)},
         requests={},
     ),
+    "queuebase": dict(
+        doc="3 vehicles standing at ONE plug of a station that also serves a co-located base: a vehicle waiting in the "
+            "station's queue can be told to charge through the base",
+        geom={"c1": (0, 0), "c2": (200, 0)}, cells=["c1"],
+        vehicles={"v1": dict(cell="c2", en=1), "v2": dict(cell="c2", en=1), "v3": dict(cell="c2", en=1)},
+        stations={"s1": dict(cell="c2", plugs={"l2": 1})},
+        bases={"b1": dict(cell="c2", stalls=2, station="s1")}, requests={},
+    ),
     "trip": dict(
         doc="3 vehicles, 2 requests (one co-located with two vehicles, one with origin = destination elsewhere): dispatch, "
             "re-dispatch, double dispatch, cancellation racing a pickup, interruption attempts, low energy",
